@@ -52,11 +52,12 @@ def pipeline_rule(ctx, fn, source, elem_edge_id, kind):
                     continue
                 n += 1
                 idx = nosite(deep_strip(tm.operand(c.args[1], c.bb)))
-                okx = idx[0] == "field" and idx[2] == "0" and (idx[1] == ("arg", 2) and elem_edge_id == "id" or idx[1][0] == "field" and idx[1][2] == "edge_id" or idx[1] == ("field", ("arg", 1), "edge_id"))
+                okx = idx[0] == "field" and idx[2] == "0" and (idx[1] == ("arg", 2) and elem_edge_id == "id" and cb is not b or idx[1][0] == "field" and idx[1][2] == "edge_id" or idx[1] == ("field", ("arg", 1), "edge_id"))
                 ctx.check(okx, "%s:lookup-by-edge-id" % fn, "geometry is looked up with %s, not the rendered element's edge id" % short(idx), c.where(), detail=short(idx))
                 ct = tm.call_term(c.term, c.bb)
                 guards = [x for x in cb.calls() if x.callee and re.search(r"Option::<T>::ok_or(_else)?$", x.callee) and contains(tm.operand(x.args[0], x.bb), lambda s: s == ct)]
-                ctx.check(len(guards) >= 1, "%s:missing=>Err" % fn, "a missing geometry is not turned into an Err", c.where(), detail="ok_or_else(missing edge id)")
+                # (or the None arm of a match on the lookup returns an Err)
+                ctx.check(len(guards) >= 1 or none_is_err(cb, c, tm), "%s:missing=>Err" % fn, "a missing geometry is not turned into an Err", c.where(), detail="ok_or_else(missing edge id)")
     ctx.check(n >= 1, "%s:has-lookup" % fn, "no geometry lookup found", b.where())
     # errors reach the caller: collect into Result + `?` (or the Result itself is returned)
     rows = [r for r in table(b, max_paths=100000) if r.end == "return"]
@@ -69,9 +70,17 @@ def R1_formats(ctx):
     ctx.rule("C20.R1", "generate_route_output: Wkt/Wkb from create_route_linestring(route, geoms), GeoJson from create_route_geojson(route, geoms), EdgeId = route.iter().map(edge_id).collect(), Json = to_value(route); no reordering anywhere", floor=6)
     b = F.need(FMT + "::generate_route_output")
     got = {}
+    tm_b = Terms(b)
     for r in table(b, max_paths=100000):
-        if r.end == "return" and result_variant(r.ret) == "Ok":
-            got[r.sel.get(("arg", 1))] = agg_payload(r.ret)
+        if r.end != "return" or is_err_value(r.ret) or result_variant(r.ret) == "Err":
+            continue
+        v = r.retn if getattr(r, "retn", None) is not None else r.ret
+        # the value returned on success: Ok(x) is x; a fallible call returned as it is stands for its Ok payload
+        if result_variant(v) == "Ok":
+            v = agg_payload(v)
+        elif result_variant(r.ret) == "Ok":
+            v = agg_payload(r.ret)
+        got.setdefault(r.sel.get(("arg", 1)), v)
     ls = ("call", OPS + "create_route_linestring", (("arg", 2), ("arg", 3)))
     gj = ("call", OPS + "create_route_geojson", (("arg", 2), ("arg", 3)))
     ctx.check("Wkt" in got and contains(got["Wkt"], lambda s: s == ls), "Wkt", "Wkt is not rendered from create_route_linestring(route, geoms)", b.where(), detail="linestring(route)")
@@ -82,13 +91,52 @@ def R1_formats(ctx):
     ei = got.get("EdgeId")
     oke = ei is not None
     if oke:
-        maps = [x for x in calls_in(ei) if itm(x[1], "map")]
-        oke = len(maps) == 1 and maps[0][2][0] == ("call", "std::slice::<impl [T]>::iter", (("arg", 2),)) and nosite(deep_strip(Terms(F.need(maps[0][2][1][1])).return_term())) == ("field", ("arg", 2), "edge_id")
+        # json!(ids) with ids[i] = route[i].edge_id for every i (adaptor chain or a loop pushing one id per element)
+        inner = clean(ei)
+        while inner[0] == "call" and len(inner[2]) == 1 and re.search(r"to_value$|Result::<T, E>::unwrap$", inner[1].split("{")[0]):
+            inner = inner[2][0]
+        sf = sequence_form(F, b, inner)
+        oke = sf is not None and sf[0] == ("field", ("at", ("arg", 2), ("i",)), "edge_id") and sf[1] == {("len", ("arg", 2))}
     ctx.check(oke, "EdgeId", "EdgeId is not route.iter().map(|e| e.edge_id)", b.where(), detail="iter().map(edge_id)")
     bad = [n for n, c in all_calls(F, b) if BAD.search(n)]
     ctx.check(not bad, "no-reordering", "generate_route_output uses %s" % bad, b.where())
     variants = {v["name"] for v in F.adts[FMT]["variants"]}
     ctx.check(variants == set(got), "all-formats", "formats %s vs rendered %s" % (sorted(variants), sorted(map(str, got))), b.where())
+
+
+def _nested_flatten(cb, ctm, crt):
+    """all points of all inputs in order, written as two nested loops with one push per point into the returned collection"""
+    loops = sorted(cb.natural_loops(), key=lambda l: -len(l[1]))
+    if len(loops) != 2 or not (set(loops[1][1]) < set(loops[0][1])):
+        return False
+    outer, inner = loops
+    orows = [r for r in iteration_table(cb, outer[0]) if r.kind != "diverge"]
+    irows = [r for r in iteration_table(cb, inner[0]) if r.kind != "diverge"]
+    if not orows or not irows or not all(r.conds for r in orows + irows):
+        return False
+    o0, i0 = clean(orows[0].conds[0][0]), clean(irows[0].conds[0][0])
+    if not (o0[0] == "discr" and o0[1][0] == "call" and re.search(r"::next$", o0[1][1]) and i0[0] == "discr" and i0[1][0] == "call" and re.search(r"::next$", i0[1][1])):
+        return False
+    osrc = o0[1][2][0]
+    while osrc[0] == "call" and len(osrc[2]) == 1 and re.search(r"::into_iter$", osrc[1]):
+        osrc = osrc[2][0]
+    isrc = i0[1][2][0]
+    while isrc[0] == "call" and len(isrc[2]) == 1 and re.search(r"::into_iter$", isrc[1]):
+        isrc = isrc[2][0]
+    if osrc != ("call", "std::slice::<impl [T]>::iter", (("arg", 1),)):
+        return False
+    if not (isrc[0] == "call" and isrc[1].endswith("::points") and isrc[2] == (o0[1],)):
+        return False
+    backs = [r for r in irows if r.kind == "back" and r.conds[0][1] == "Some"]
+    pushes = [[clean(v) for _, k, v in r.sites if k and k.endswith("Vec::<T, A>::push")] for r in backs]
+    if not backs or any(len(p_) != 1 or p_[0][2][1] != i0[1] for p_ in pushes):
+        return False
+    sink = pushes[0][0][2][0]
+    # no push outside the inner loop, no other exit than exhaustion, and the sink is what is returned
+    for r in orows:
+        if r.kind == "back" and [1 for _, k, v in r.sites if k and k.endswith("Vec::<T, A>::push")]:
+            return False
+    return contains(crt, lambda q: q == sink)
 
 
 def R2_geometry(ctx):
@@ -106,24 +154,33 @@ def R2_geometry(ctx):
     ctx.check(okg, "create_edge_geometry", "create_edge_geometry is not geoms[edge.edge_id.0] with Err for a miss", b.where(), detail="geoms.get(edge_id.0).ok_or_else")
     # linestring: ids in route order, then lookups in id order, then concat
     lb = F.need(OPS + "create_route_linestring")
-    rows = [r for r in table(lb) if r.end == "return" and result_variant(r.ret) == "Ok"]
-    okc = len(rows) == 1
+    ltm = Terms(lb)
+    cc = [c for c in lb.calls() if c.callee == "routee_compass_core::util::geo::geo_io_utils::concat_linestrings"]
+    okc = len(cc) == 1
+    got = None
     if okc:
-        v = agg_payload(rows[0].ret)
-        okc = v[0] == "call" and v[1] == "routee_compass_core::util::geo::geo_io_utils::concat_linestrings"
-        if okc:
-            inner = v[2][0]
-            maps = [x for x in calls_in(inner) if itm(x[1], "map")]
-            okc = len(maps) == 2
-    ctx.check(okc, "linestring:concat-of-lookups", "the route geometry is not concat_linestrings(lookups of the route's edge ids in order)", lb.where(), detail="concat(route.map(id).map(lookup))")
+        got = sequence_form(F, lb, ltm.operand(cc[0].args[0], cc[0].bb))
+        want = ("call", "std::slice::<impl [T]>::get", (("arg", 2), ("field", ("field", ("at", ("arg", 1), ("i",)), "edge_id"), "0")))
+        okc = got is not None and got[0] == want and got[1] == {("len", ("arg", 1))}
+        # and that is what is returned
+        rt = ltm.return_term()
+        oks_ = [x for x in (rt[1] if rt[0] == "phi" else [rt]) if result_variant(x) == "Ok"]
+        okc = okc and len(oks_) == 1 and clean(agg_payload(oks_[0])) == clean(ltm.call_term(cc[0].term, cc[0].bb))
+    ctx.check(okc, "linestring:concat-of-lookups", "the route geometry is not concat_linestrings(lookups of the route's edge ids in order): %s" % (short(got[0])[:120] if got else None), lb.where(), detail="concat([geoms[route[i].edge_id.0] for i in 0..len(route)])")
     cb = F.need("routee_compass_core::util::geo::geo_io_utils::concat_linestrings")
-    crt = nosite(deep_strip(Terms(cb).return_term()))
-    fm = [x for x in calls_in(crt) if itm(x[1], "flat_map")]
+    ctm = Terms(cb)
+    crt = clean(ctm.return_term())
     bad = [n for n, c in all_calls(F, cb) if BAD.search(n)]
-    okf = len(fm) == 1 and fm[0][2][0] == ("call", "std::slice::<impl [T]>::iter", (("arg", 1),)) and not bad
-    if okf:
-        k = nosite(deep_strip(Terms(F.need(fm[0][2][1][1])).return_term()))
-        okf = k[0] == "call" and k[1].endswith("::points") and k[2] == (("arg", 2),)
+    okf = not bad
+    fm = [x for x in calls_in(crt) if itm(x[1], "flat_map")]
+    if fm:
+        okf = okf and len(fm) == 1 and fm[0][2][0] == ("call", "std::slice::<impl [T]>::iter", (("arg", 1),))
+        if okf:
+            k = clean(Terms(F.need(fm[0][2][1][1])).return_term())
+            okf = k[0] == "call" and k[1].endswith("::points") and k[2] == (("arg", 2),)
+    else:
+        # nested loops: for ls in linestrings.iter() { for p in ls.points() { all.push(p) } }
+        okf = okf and _nested_flatten(cb, ctm, crt)
     ctx.check(okf, "concat:all-points-in-order", "concat_linestrings is not flat_map(points) over all inputs in order (found forbidden adaptors %s)" % sorted({x.split("::")[-1] for x in bad}), cb.where(), detail="iter().flat_map(points)")
     # feature
     fb = F.need(OPS + "create_geojson_feature")
@@ -162,9 +219,17 @@ def R3_trees(ctx):
     bad = [n for n, c in all_calls(F, b) if BAD.search(n)]
     ctx.check(not bad, "generate_tree_output:complete", "generate_tree_output uses %s" % bad, b.where())
     got = {}
+    tm_b = Terms(b)
     for r in table(b, max_paths=100000):
-        if r.end == "return" and result_variant(r.ret) == "Ok":
-            got[r.sel.get(("arg", 1))] = agg_payload(r.ret)
+        if r.end != "return" or is_err_value(r.ret) or result_variant(r.ret) == "Err":
+            continue
+        v = r.retn if getattr(r, "retn", None) is not None else r.ret
+        # the value returned on success: Ok(x) is x; a fallible call returned as it is stands for its Ok payload
+        if result_variant(v) == "Ok":
+            v = agg_payload(v)
+        elif result_variant(r.ret) == "Ok":
+            v = agg_payload(r.ret)
+        got.setdefault(r.sel.get(("arg", 1)), v)
     tvals = ("call", "std::collections::HashMap::<K, V, S, A>::values", (("arg", 2),))
     for v in ("Json", "EdgeId"):
         ctx.check(v in got and contains(got[v], lambda s: s == tvals), "tree:%s" % v, "tree %s output is not built from tree.values()" % v, b.where(), detail="tree.values()")
@@ -218,6 +283,13 @@ def R4_identifiers(ctx):
         okk = okk and contains(f["o_key"], lambda s: s[0] == "agg" and s[2] == "OriginVertexUUID") and contains(f["d_key"], lambda s: s[0] == "agg" and s[2] == "DestinationVertexUUID")
         rr = [x for x in calls_in(f["uuids"]) if x[1].endswith("read_utils::read_raw_file")]
         okr = len(rr) == 1 and unmut(rr[0][2][0]) == ("arg", 1)
+        # the stored table is that result itself: between the read and the field only row-preserving steps are allowed
+        t_ = clean(f["uuids"])
+        while okr and t_ != clean(rr[0]):
+            if t_[0] == "call" and t_[2] and re.search(r"Result::<T, E>::map_err$|::(into_iter|iter|into_boxed_slice|into_vec|to_vec)$|Iterator>?::(cloned|copied|collect)(\{.*\})?$|Itertools::collect_vec$|From<.*>>::from$|Into<.*>>::into$", t_[1]):
+                t_ = t_[2][0]
+            else:
+                okr = False
         if okr:
             op = rr[0][2][1]
             okr = op[0] == "closure" and nosite(deep_strip(Terms(F.need(op[1])).return_term())) == ("agg", "std::result::Result", "Ok", (("0", ("arg", 3)),))
